@@ -14,7 +14,7 @@ RULE = (
     "for every generated stream (3-10 records over 1-3 descriptors incl. nested and grouped records, 300-8000 bytes; every fourth one "
     "is a file that 1-3 later writers appended to, so it holds mid-stream header frames and repeated descriptor frames) the "
     "fault space is enumerated completely: (cut) EVERY byte offset 0..len of the raw stream read through a buffered "
-    "BytesIO, a raw non-peekable reader returning short reads, RecordReader(fileobj=), a reader with an (always true) interpreted "
+    "BytesIO, a raw non-peekable reader returning short reads, RecordReader(fileobj=), a reader that is peeked / left after a few records and then iterated again, a reader with an (always true) interpreted "
     "selector active, and record_stream([path]) on a file holding the cut; (gzcut) EVERY byte offset of "
     "the sync-flushed gzip form (built by the harness; one gzip member per appended part) read through RecordReader(fileobj=), with a selector, and through "
     "record_stream, and of the gzip file the library itself writes when flushed after every record (on a fresh path or over a longer "
@@ -61,7 +61,7 @@ def generate(ctx):
     idx = 0
     for i in range(nstreams):
         s = subseed("c04", ctx.seed, "stream", i)
-        for kind, sub in (("cut", "buffered"), ("cut", "raw"), ("cut", "reader"), ("cut", "selector"), ("cut", "rstream"), ("gzcut", "reader"), ("gzcut", "selector"),
+        for kind, sub in (("cut", "buffered"), ("cut", "raw"), ("cut", "reader"), ("cut", "selector"), ("cut", "rstream"), ("cut", "resume"), ("gzcut", "reader"), ("gzcut", "selector"),
                           ("gzcut", "rstream"), ("wfault", "raise"), ("wfault", "short"), ("wfault", "silent-short"), ("wcont", "raise"), ("gzlib", "reader")):
             if ctx.mine(idx):
                 yield {"k": kind, "sub": sub, "s": s, "i": i}
@@ -75,6 +75,7 @@ def build(case, ctx):
 
     n = 3 + case["s"] % 8
     del _PARTS[:]
+    del _INTER[:]
     if case.get("i", 0) % 4 == 2:
         records = same_name_family(case["s"], n + 2)
     elif case.get("i", 0) % 4 == 1:
@@ -88,8 +89,23 @@ def build(case, ctx):
 
         rng = random.Random(case["s"])
         n = max(n, 4)
-        records = workload.build_sequence(case["s"], thorough=False, n_records=n, n_descs=1 + case["s"] % 2, small=True)
-        _PARTS.extend(sorted(rng.sample(range(1, n), rng.choice([1, 2, 2, 3]))))
+        records = workload.build_sequence(case["s"], thorough=False, n_records=n, n_descs=2 if case.get("i", 0) % 8 == 7 else 1 + case["s"] % 2, small=True)
+        if case.get("i", 0) % 8 == 7:
+            # two writers alive at the same time on the one output, their records interleaved (each starts with its own
+            # header frame when first used and announces the types IT has not announced yet)
+            # writer 0 writes the records of the first record's type, writer 1 all others; the order is arranged so that
+            # writer 0 comes back to its type after writer 1 has started (w0:A  w1:B  w0:A ...)
+            d0 = getattr(records[0], "_desc", None)
+            mine = [r for r in records if getattr(r, "_desc", None) is d0]
+            other = [r for r in records if getattr(r, "_desc", None) is not d0]
+            if len(mine) >= 2 and other:
+                records = [mine[0], other[0], mine[1]] + mine[2:] + other[1:]
+                rng.shuffle(records[3:]) if len(records) > 4 else None
+            _INTER.extend(0 if getattr(r, "_desc", None) is d0 else 1 for r in records)
+            if 1 not in _INTER and len(_INTER) > 1:
+                _INTER[1] = 1
+        else:
+            _PARTS.extend(sorted(rng.sample(range(1, n), rng.choice([1, 2, 2, 3]))))
     else:
         records = workload.build_sequence(case["s"], thorough=False, n_records=n, n_descs=1 + case["s"] % 3, small=True)
     written = [observe.normalise(observe.obs(r)) for r in records]
@@ -99,6 +115,7 @@ def build(case, ctx):
 
 
 _PARTS = []  # record indexes at which the application of the current stream starts a new writer on the same file
+_INTER = []  # or: per record, which of two simultaneously open writers on the same file writes it
 
 
 def write_records(fileobj, records, carry_on):
@@ -107,6 +124,30 @@ def write_records(fileobj, records, carry_on):
     application stops at the first exception (crash)."""
     from flow.record import RecordStreamWriter
 
+    if _INTER:
+        ok, crashed, ws = [], None, [None, None]
+        for j, r in enumerate(records):
+            k = _INTER[j] if j < len(_INTER) else 0
+            if ws[k] is None:
+                ws[k] = RecordStreamWriter(fileobj)
+            try:
+                ws[k].write(r)
+                ok.append(True)
+            except Exception as e:  # noqa: BLE001
+                ok.append(False)
+                if not carry_on:
+                    crashed = e
+                    break
+        for w_ in ws:
+            if w_ is not None:
+                if crashed is None:
+                    try:
+                        w_.flush()
+                    except Exception as e:  # noqa: BLE001
+                        if not carry_on:
+                            crashed = e
+                w_.fp = None
+        return ok, crashed
     ok, crashed, w = [], None, None
     for j, r in enumerate(records):
         if w is None or j in _PARTS:
@@ -236,6 +277,10 @@ def _scratch_path(name):
 def make_reader_factory(sub, data):
     from flow.record import RecordReader, RecordStreamReader
 
+    if sub == "resume":
+        # the application does not read in one uninterrupted loop: it peeks at the first record, drops that iterator, and
+        # loops over the SAME reader again (alternately: breaks out after two records and comes back)
+        return lambda: _Resuming(RecordStreamReader(io.BytesIO(data)) if len(data) % 2 else RecordReader(fileobj=io.BytesIO(data)), len(data) % 3)
     if sub == "selector":
         # an (always true) interpreted selector is active while reading: header frames, descriptor frames and damaged
         # frames pass through the same loop as the records it is applied to
@@ -258,6 +303,30 @@ def make_reader_factory(sub, data):
     if sub == "raw":
         return lambda: RecordStreamReader(_Full(faultio.RawReader(data, chunk=7)))
     return lambda: RecordReader(fileobj=io.BytesIO(data))
+
+
+class _Resuming:
+    def __init__(self, rd, style):
+        self.rd = rd
+        self.style = style
+
+    def __iter__(self):
+        import gc
+
+        if self.style == 0:
+            first = next(iter(self.rd), None)
+            if first is not None:
+                yield first
+        else:
+            n = 0
+            for r in self.rd:
+                yield r
+                n += 1
+                if n >= self.style:
+                    break
+        gc.collect()
+        for r in self.rd:
+            yield r
 
 
 class _Full:
@@ -317,6 +386,8 @@ def execute(ctx, case):
         ctx.note_add("streams_not_reference_decodable")
     frame_ends = [e for _, e, _ in frames]
     k, sub = case["k"], case["sub"]
+    if _INTER:
+        ctx.event("streams_written_by_two_interleaved_writers")
     if _PARTS:
         ctx.event("streams_appended_to_by_a_later_writer")
         ctx.event("mid_stream_header_frames", len(_PARTS))
